@@ -84,6 +84,18 @@ def mt_check(ctx, stats):
         v = parse_hexline(o) if not o.startswith("!") else [0, -1, 0]
         if v[0] != v[1] or v[2] != 1:
             probs.append({"kind": "judge", "component": "dcs_mt", "case": c, "impl": o, "model": None})
+    # receiver: every thread offers every id; no id may be accepted twice
+    rcases = [[8, 20000, 1, 1], [8, 20000, 3, 2], [16, 10000, 1, 3], [4, 30000, 7, 4]]
+    if ctx.tier == "thorough":
+        rcases += [[16, 200000, 1, 5], [8, 200000, 2, 6], [12, 100000, 5, 7], [16, 100000, 1, 8]]
+    rlines = [hexline(c) for c in rcases]
+    routs = ctx.impl("dcr_mt", rlines)
+    for c, o in zip(rcases, routs):
+        v = parse_hexline(o) if not o.startswith("!") else [0, 1, 0, 99]
+        if v[1] != 0 or v[3] > 1:
+            probs.append({"kind": "judge", "component": "dcr_mt", "case": c, "impl": o, "model": None})
+    stats.append({"component": "dcr_mt", "cases": len(rcases), "distinct": len(rcases), "distinct_nontrivial": len(rcases),
+                  "samples": [{"case": rlines[0], "impl": routs[0]}], "note": "threads x ids offered by every thread; output = offers, ids accepted more than once, ids accepted once, largest accept count"})
     stats.append({"component": "dcs_mt", "cases": len(cases), "distinct": len(cases), "distinct_nontrivial": len(cases),
                   "samples": [{"case": lines[0], "impl": outs[0]}], "note": "threads x per-thread issues; output = issued, distinct, per-thread monotone"})
     return probs
